@@ -136,6 +136,20 @@ def run(ctx):
         ctx.count("distinct_nontrivial")
         ctx.count("paths", npaths)
         ctx.count("evaluations", nobs)
+    g3 = ps.grammar("core", ("probe", "probex"))
+    for body in ps.programs(g3, 2 if ctx.tier == "quick" else 3, 3):
+        # one re-entrant manager object per kind serves every with-block of the program
+        for kind in KINDS:
+            if not ps.kind_ok(body, kind) or not ps.has(body, ps.WITH_KINDS):
+                continue
+            idx += 1
+            if not ctx.mine(idx):
+                continue
+            npaths, nobs = run_program(body, kind, ctx, make_observer, ns=ps.NS_REENTRANT)
+            ctx.count("reentrant_programs")
+            ctx.count("distinct_nontrivial")
+            ctx.count("paths", npaths)
+            ctx.count("evaluations", nobs)
     for body in space(ctx.tier):
         for kind in KINDS:
             if not ps.kind_ok(body, kind):
@@ -159,4 +173,4 @@ def run(ctx):
 
 def replay(case):
     from vlib.ctxobs import replay_case
-    return replay_case(case, make_observer, ns=ps.NS_MIXED)
+    return replay_case(case, make_observer, ns=ps.NS_MIXED)   # a case that names its namespace ("ns") overrides this
